@@ -529,6 +529,7 @@ impl<'a> World<'a> {
                     hooks::gate_open(g.id);
                 }
                 let key = data::expected_owner_key(&owner.public_key());
+                let mut completed_by_quorum = false;
                 if let Some((id, _)) = self.open.pop() {
                     // only replies that arrive while the read is still open are "received"
                     let mut received = vec![];
@@ -547,6 +548,7 @@ impl<'a> World<'a> {
                         self.rep.probe("vault_identical_copies_from_several_holders");
                     }
                     pads = received;
+                    completed_by_quorum = !self.driver.verif_pending_get_record().iter().any(|p| p.query_id == id);
                     let rk = RecordKey::new(&key);
                     let term = match finish % 4 {
                         0 => QueryResult::GetRecord(Ok(kad::GetRecordOk::FinishedWithNoAdditionalRecord { cache_candidates: Default::default() })),
@@ -583,7 +585,22 @@ impl<'a> World<'a> {
                             }
                         }
                     }
-                    Some(Err(_)) => self.rep.probe("read_failed_cleanly"),
+                    Some(Err(e)) => {
+                        self.rep.probe("read_failed_cleanly");
+                        // invalid versions are discarded, they do not displace an authentic one: when the read ended
+                        // in a resolution of the received versions (a version reached the quorum, or the query
+                        // finished with several versions) and an authentic version was among them, the read succeeds
+                        let distinct = pads.iter().map(|p| &p.1).collect::<HashSet<_>>().len();
+                        let resolved = completed_by_quorum || (finish % 4 == 0 && distinct >= 2);
+                        if resolved && best.is_some() {
+                            self.rep.violate(
+                                "C15",
+                                "vault_read_failed_although_authentic_version_received",
+                                &[("ended", if completed_by_quorum { "quorum".into() } else { "finished_split".to_string() })],
+                                format!("an authentic pad (counter {:?}) was among the {distinct} versions received, yet the read failed: {}", best, e.chars().take(120).collect::<String>()),
+                            );
+                        }
+                    }
                     None => self.rep.violate("C15", "read_stuck", &[("fault", "vault".into())], "the vault read never completed after the terminal event"),
                 }
             }
